@@ -33,6 +33,7 @@ class CexFound(BaseException):
 
 
 QUERY_TIMEOUT_MS = 60_000
+REALISE_CAP = 300
 
 
 class Engine:
@@ -119,7 +120,11 @@ class Engine:
         if z3.is_int_value(expr):
             return expr.as_long()
         self.realisations += 1
+        tried = 0
         while True:
+            tried += 1
+            if tried > REALISE_CAP:
+                raise Inconclusive(f"more than {REALISE_CAP} values realised for one term (unbounded symbolic value at a C boundary)")
             if self.pos < len(self.prefix):
                 val = self.prefix[self.pos][2]  # replay: same value as first time
             else:
